@@ -271,6 +271,99 @@ print(json.dumps({'reproduced': bool(bad), 'bad': bad[:8]}))
 '''
 
 
+# ------------------------------------------------------------------------------------------------ CSR row slices / subsets
+class StubCSR:
+    """what utils.CSRRowSlice/CSRRowSubset use of a scipy CSR matrix: indptr/indices (concrete pattern) and data (symbolic)"""
+    def __init__(self, dense_pattern, tag='a'):
+        m, n = dense_pattern.shape
+        self.shape = (m, n); self.dtype = np.dtype(object)
+        indptr = [0]; indices = []; data = []
+        self.dense = np.empty((m, n), dtype=object); self.dense[...] = 0
+        for i in range(m):
+            for j in range(n):
+                if dense_pattern[i, j]:
+                    indices.append(j); v = Sym(z3.Real('%s_%d_%d' % (tag, i, j))); data.append(v); self.dense[i, j] = v
+            indptr.append(len(indices))
+        self.indptr = np.array(indptr, dtype=np.int32); self.indices = np.array(indices, dtype=np.int32)
+        self.data = np.array(data + [None], dtype=object)[:-1]
+
+
+def _full_indptr(Ap, n_row):
+    """C semantics of passing `indptr[r:r+1]` as a pointer: the callee reads n_row+1 entries starting there"""
+    if len(Ap) >= n_row + 1: return Ap
+    base = Ap.base
+    ofs = (Ap.__array_interface__['data'][0] - base.__array_interface__['data'][0]) // Ap.itemsize
+    return base[ofs:ofs + n_row + 1]
+
+
+def _csr_matvecs(M, N, n_vecs, Ap, Aj, Ax, X, Y):
+    Ap = _full_indptr(Ap, M)
+    for i in range(M):
+        for k in range(int(Ap[i]), int(Ap[i + 1])):
+            for v in range(n_vecs):
+                Y[i * n_vecs + v] = Y[i * n_vecs + v] + Ax[k] * X[int(Aj[k]) * n_vecs + v]
+
+
+def _csr_matvec(M, N, Ap, Aj, Ax, x, y):
+    Ap = _full_indptr(Ap, M)
+    for i in range(M):
+        for k in range(int(Ap[i]), int(Ap[i + 1])):
+            y[i] = y[i] + Ax[k] * x[int(Aj[k])]
+
+
+def load_rows(enc=None, transform=None):
+    sc = _NS(sparse=_NS(csr_matrix=StubCSR, _sparsetools=_NS(csr_matvecs=_csr_matvecs, csr_matvec=_csr_matvec)))
+    ns = {'np': SymNP(), 'scipy': sc}
+    srcload.load_defs('pyiga/utils.py', ['CSRRowSlice', 'CSRRowSubset'], ns, encoded=enc, transform=transform)
+    return ns
+
+
+def rows_harness(rn, pattern, K):
+    """row slices [r0, r1) with symbolic bounds and row subsets of K symbolic rows (any order, repetitions allowed) of a CSR matrix with symbolic data"""
+    def run(c):
+        A = StubCSR(np.array(pattern)); m, n = A.shape
+        x = sx.symarray('x', (n,)); X = sx.symarray('X', (n, 2))
+        full = A.dense.dot(x); fullX = A.dense.dot(X)
+        r0 = Sym(z3.Int('r0')); r1 = Sym(z3.Int('r1'))
+        c.assume(z3.And(r0.t >= 0, r0.t <= r1.t, r1.t <= m))
+        a, b = int(r0), int(r1)
+        S = rn['CSRRowSlice'](A, (a, b))
+        c.check(z3.And(z3.BoolVal(S.shape == (b - a, n)), sx.eq_arrays(np.asarray(S.dot(x), dtype=object), full[a:b]), sx.eq_arrays(np.asarray(S.dot(X), dtype=object), fullX[a:b])),
+                'CSRRowSlice(A, (r0, r1)) . x = rows r0..r1-1 of A x (vector and 2 columns)')
+        rows = []
+        for k in range(K):
+            rk = Sym(z3.Int('row%d' % k)); c.assume(z3.And(rk.t >= 0, rk.t < m)); rows.append(int(rk))
+        for form in (list(rows), np.array(rows, dtype=int)):
+            T = rn['CSRRowSubset'](A, form)
+            c.check(z3.And(z3.BoolVal(T.shape == (K, n)), sx.eq_arrays(np.asarray(T.dot(x), dtype=object), full[np.array(rows, dtype=int)] if K else full[:0])),
+                    'CSRRowSubset(A, rows) . x = (A x)[rows] for every row list (unsorted, repeated)')
+        c.witness('rows')
+    return run
+
+
+REPLAY_ROWS = r"""
+import sys, json, itertools, numpy as np, scipy.sparse
+w = json.load(sys.stdin)
+from pyiga import utils
+rng = np.random.RandomState(1)
+A = scipy.sparse.random(9, 7, density=0.5, format='csr', random_state=rng); x = rng.rand(7); X = rng.rand(7, 2)
+bad = []
+for a in range(10):
+    for b in range(a, 10):
+        S = utils.CSRRowSlice(A, (a, b))
+        if not np.allclose(S.dot(x), (A @ x)[a:b]) or not np.allclose(S.dot(X), (A @ X)[a:b]): bad.append('CSRRowSlice (%d,%d)' % (a, b)); break
+for rows in itertools.chain(itertools.product(range(9), repeat=3), [[3, 5, 4, 6], [7, 7, 8], [8, 7, 6, 5], [2, 4, 4, 3, 6], [0, 2, 1], []]):
+    rows = list(rows)
+    T = utils.CSRRowSubset(A, rows)
+    try:
+        if not np.allclose(T.dot(x), (A @ x)[rows] if rows else np.zeros(0)): bad.append('CSRRowSubset %s' % rows)
+    except Exception as e:
+        bad.append('CSRRowSubset %s: %s' % (rows, type(e).__name__))
+    if len(bad) > 5: break
+print(json.dumps({'reproduced': bool(bad), 'bad': bad[:6]}))
+"""
+
+
 def main():
     run = Run(PID, level='other', description='Operator classes and Kronecker/tensor-product application routines against explicit dense definitions on symbolic operands.')
     thorough = run.tier == 'thorough'
@@ -281,7 +374,7 @@ def main():
                   'scipy.sparse.linalg.LinearOperator base class: the real scipy class (dispatch of dot/T/H)']
     run.assumptions += ['reals for doubles (real dtypes: adjoint = transpose)']
     run.out_of_scope += ['make_solver / make_kronecker_solver / fastdiag_solver (LAPACK, SuperLU, eigh behind FFI): not applicable',
-                         'utils.CSRRowSlice/CSRRowSubset (scipy._sparsetools C kernels)', 'more than 3 factors, shapes > 3']
+                         'more than 3 factors, shapes > 3']
     run.bounds = {'factors': '1..3', 'shapes': '<= 3 per factor (square and rectangular)', 'operand kinds': 'dense / sparse / abstract operator', 'arguments': 'vector, (n,1), 2 columns'}
     jobs = []
     jobs.append(('basic', basic_harness(on), {'kind': 'basic'}))
@@ -327,6 +420,16 @@ def main():
                 fam = {('.H' in b) for b in r['bad']}
                 key = '%s:%s' % (grp, 'adjoint' if r['bad'] and all('.H' in b for b in r['bad']) else 'apply')
                 run.report(key, '%s: solver: %s; real run: %s' % (w, names[:4], r['bad']), w, r['reproduced'])
+    if run.want('rows'):
+        enc4 = srcload.Encoded(); rn = load_rows(enc4); run.add_encoded(enc4)
+        run.stubs += ['scipy.sparse._sparsetools.csr_matvec(s) -> their documented loops (C pointer semantics of a one-element indptr slice emulated through the base array)',
+                      'scipy.sparse.csr_matrix -> record with concrete indptr/indices and symbolic data']
+        for pattern, K in [([[1, 0, 1], [0, 1, 1], [1, 1, 0], [0, 0, 1]], 3), ([[1, 1], [0, 0], [1, 0], [0, 1], [1, 1]], 3)] + ([([[1, 0, 1, 1], [0, 1, 0, 0], [1, 1, 1, 0], [0, 0, 0, 1], [1, 0, 0, 1], [0, 1, 1, 0]], 4)] if thorough else []):
+            st = sx.explore(rows_harness(rn, pattern, K), timeout_ms=60000, stop_at_first=False, max_paths=100000)
+            run.absorb(st, 'csr-rows', bound={'matrix': '%dx%d pattern' % (len(pattern), len(pattern[0])), 'row subset size': K}, sample={'obligation': 'CSRRowSlice / CSRRowSubset', 'rows': K})
+            if st.cex:
+                r = realbuild.run_real(REPLAY_ROWS, {}, only=[])
+                run.report('utils.CSRRow*:%s' % ','.join(sorted({b.split(' ')[0] for b in r['bad']})), 'solver: %s; real run: %s' % (sorted({cx['name'] for cx in st.cex})[:2], r['bad'][:4]), {'kind': 'rows'}, r['reproduced'])
     if not run.args.no_canaries:
         def canary(name, file, pat, rep, harness_fn):
             src = srcload.read('pyiga/%s.py' % file)
@@ -347,7 +450,7 @@ def main():
 
 def replay_file(path):
     w = json.load(open(path))['witness']
-    r = realbuild.run_real(REPLAY, w, only=[])
+    r = realbuild.run_real(REPLAY_ROWS if w.get('kind') == 'rows' else REPLAY, w, only=[])
     print(json.dumps(r)); print('REPRODUCED' if r['reproduced'] else 'NOT-REPRODUCED')
     sys.exit(1 if r['reproduced'] else 0)
 
